@@ -335,7 +335,7 @@ fn gen_bulk(rng: &mut Rng, p: &Profile) -> Case {
         TaskSpec { handles: vec![HandleSpec { side: Side::S, flavour: fl(rng), derive: Derive::CloneAs }], ops: sops },
         TaskSpec { handles: vec![HandleSpec { side: Side::R, flavour: fl(rng), derive: Derive::CloneAs }], ops: rops },
     ];
-    Case { cap, ctor: fl(rng), class, mask: rng.next(), knobs: gen_knobs(rng, p), tasks, main_keeps_roots: false, lock_harness: false, epilogue: vec![] }
+    Case { cap, ctor: fl(rng), class, mask: rng.next(), knobs: gen_knobs(rng, p), tasks, main_keeps_roots: false, lock_harness: false, epilogue: vec![], balanced: false }
 }
 
 /// Crowd variant: five or six tasks of one side wait at the same time (the wait list has to grow beyond its
@@ -398,7 +398,80 @@ fn gen_crowd(rng: &mut Rng, p: &Profile) -> Case {
     }
     let side = if crowd_sends { Side::R } else { Side::S };
     tasks.push(TaskSpec { handles: vec![HandleSpec { side, flavour: fl(rng), derive: Derive::CloneAs }], ops });
-    Case { cap, ctor: fl(rng), class, mask: rng.next(), knobs: gen_knobs(rng, p), tasks, main_keeps_roots: false, lock_harness: false, epilogue: vec![] }
+    Case { cap, ctor: fl(rng), class, mask: rng.next(), knobs: gen_knobs(rng, p), tasks, main_keeps_roots: false, lock_harness: false, epilogue: vec![], balanced: false }
+}
+
+/// G-exec: "balanced executors". 1-3 executor tasks each hold both sides, create all their send and receive
+/// futures first and then drive them with ONE executor loop (`FutJoin`, as `join!` or a single-threaded runtime
+/// would); optional one-sided tasks (sync or async, sequential) add sends or receives. Over the whole run the
+/// number of sends equals the number of receives, nobody closes, cancels or times out, main keeps the root
+/// handles: by specification every operation completes with success in every schedule (see DESIGN 4, C16).
+pub fn gen_exec_case(rng: &mut Rng, p: &Profile) -> Case {
+    let cap = *rng.pick(&[Cap::Bounded(0), Cap::Bounded(0), Cap::Bounded(1), Cap::Bounded(1), Cap::Bounded(2), Cap::Bounded(3), Cap::Unbounded]);
+    let class = *rng.pick(&p.classes);
+    let fl = |rng: &mut Rng| if rng.chance(1, 2) { Flavour::Async } else { Flavour::Sync };
+    let dv = |rng: &mut Rng| if rng.chance(1, 2) { Derive::CloneAs } else { Derive::CloneThenConvert };
+    let n_exec = *rng.pick(&[1usize, 1, 2, 2, 2, 3]);
+    let total = rng.range(2, 6) as usize;
+    // who sends / receives each message: task indices; executors are 0..n_exec, then up to one one-sided sender task
+    // and one one-sided receiver task
+    let with_sender_task = rng.chance(1, 3);
+    let with_receiver_task = rng.chance(1, 3);
+    let st = n_exec;
+    let rtk = n_exec + with_sender_task as usize;
+    let n_tasks = n_exec + with_sender_task as usize + with_receiver_task as usize;
+    let mut sends: Vec<Vec<u32>> = vec![Vec::new(); n_tasks];
+    let mut recvs: Vec<usize> = vec![0; n_tasks];
+    let mut ids = IdGen(0);
+    for _ in 0..total {
+        let who_s = if with_sender_task && rng.chance(1, 3) { st } else { rng.below(n_exec as u64) as usize };
+        let who_r = if with_receiver_task && rng.chance(1, 3) { rtk } else { rng.below(n_exec as u64) as usize };
+        sends[who_s].push(ids.next());
+        recvs[who_r] += 1;
+    }
+    let mut tasks = Vec::new();
+    for t in 0..n_tasks {
+        if t < n_exec {
+            let handles = vec![HandleSpec { side: Side::S, flavour: fl(rng), derive: dv(rng) }, HandleSpec { side: Side::R, flavour: fl(rng), derive: dv(rng) }];
+            let mut ops: Vec<Op> = sends[t].iter().map(|id| Op::FutSend { h: 0, id: *id }).collect();
+            for _ in 0..recvs[t] {
+                ops.push(Op::FutRecv { h: 1 });
+            }
+            // creation order is irrelevant for completion (no future is polled before the join); shuffle it
+            for i in (1..ops.len()).rev() {
+                let j = rng.below(i as u64 + 1) as usize;
+                ops.swap(i, j);
+            }
+            if rng.below(100) < p.p_yield as u64 {
+                ops.push(Op::Yield);
+            }
+            ops.push(Op::FutJoin {
+                shared_waker: rng.chance(1, 2),
+                p_spurious: *rng.pick(&[0u8, 0, 10, 30, 60]),
+                p_new_waker: *rng.pick(&[0u8, 0, 10, 30, 60]),
+            });
+            tasks.push(TaskSpec { handles, ops });
+        } else if t == st && with_sender_task {
+            let f = fl(rng);
+            let ops = sends[t].iter().map(|id| if f == Flavour::Async { Op::ASend { h: 0, id: *id, plan: plan_no_cancel(rng, p) } } else { Op::Send { h: 0, id: *id } }).collect();
+            tasks.push(TaskSpec { handles: vec![HandleSpec { side: Side::S, flavour: f, derive: dv(rng) }], ops });
+        } else {
+            let f = fl(rng);
+            let ops = (0..recvs[t]).map(|_| if f == Flavour::Async { Op::ARecv { h: 0, plan: plan_no_cancel(rng, p) } } else { Op::Recv { h: 0 } }).collect();
+            tasks.push(TaskSpec { handles: vec![HandleSpec { side: Side::R, flavour: f, derive: dv(rng) }], ops });
+        }
+    }
+    Case { cap, ctor: fl(rng), class, mask: rng.next(), knobs: gen_knobs(rng, p), tasks, main_keeps_roots: true, lock_harness: false, epilogue: vec![], balanced: true }
+}
+
+/// a poll plan with spurious polls and waker changes but without cancellation
+fn plan_no_cancel(rng: &mut Rng, p: &Profile) -> PollPlan {
+    let mut q = p.clone();
+    q.p_cancel = 0;
+    q.p_never_poll = 0;
+    let mut plan = gen_plan(rng, &q);
+    plan.repoll_after_ready = false;
+    plan
 }
 
 /// G-mpmc and its parameterisations.
@@ -534,7 +607,7 @@ pub fn gen_case(rng: &mut Rng, p: &Profile) -> Case {
         epilogue.push(Op::Observe { h: 1, what: Obs::IsTerminated });
         epilogue.push(Op::TryRecv { h: 1 });
     }
-    Case { cap, ctor, class, mask: rng.next(), knobs: gen_knobs(rng, p), tasks, main_keeps_roots: all_bounded && p.epilogue, lock_harness: false, epilogue }
+    Case { cap, ctor, class, mask: rng.next(), knobs: gen_knobs(rng, p), tasks, main_keeps_roots: all_bounded && p.epilogue, lock_harness: false, epilogue, balanced: false }
 }
 
 /// the profile used by property `prop`
